@@ -67,10 +67,10 @@ Proof.
   destruct ((major =? 2) || (major =? 3)); inversion H; subst; simpl; lia.
 Qed.
 
-Section Framing.
+Section FramingAt.
   Variable parse_hdr : bytes -> option hdr.
   Variable print_hdr : hdr -> bytes.
-  Hypothesis parse_print : forall m, parse_hdr (print_hdr m) = Some m.
+  (* every statement is about ONE header m that the parser reads back: parse_hdr (print_hdr m) = Some m *)
 
   Definition file_len (nb : nat) (m : hdr) (body : bytes) : nat :=
     (8 + nb + List.length (print_hdr m) + List.length body)%nat.
@@ -82,13 +82,14 @@ Section Framing.
   Qed.
 
   (* the common core: read_array on the first k bytes of a well-formed file *)
-  Lemma read_array_prefix : forall short versions major nb m body k,
+  Lemma read_array_prefix_at : forall short versions major nb m body k,
+    parse_hdr (print_hdr m) = Some m ->
     wf_file print_hdr major nb m body ->
     existsb (Z.eqb major) versions = true ->
     read_array parse_hdr short versions (firstn k (encode print_hdr major nb m body)) =
     if Nat.ltb k (file_len nb m body) then Err short else Ok (m, body).
   Proof.
-    intros short versions major nb m body k [Hnb [Hmax [isz [Hisz Hbody]]]] Hver.
+    intros short versions major nb m body k Hpp [Hnb [Hmax [isz [Hisz Hbody]]]] Hver.
     unfold file_len.
     set (H := print_hdr m) in *.
     set (HL := le_encode nb (Z.of_nat (List.length H))).
@@ -126,7 +127,7 @@ Section Framing.
     assert (Z.of_nat (Nat.min (k - 8 - nb) (List.length H + List.length body)) <? Z.of_nat (List.length H) = false) as ->.
     { apply Z.ltb_ge. lia. }
     assert (max_header_size <? Z.of_nat (List.length H) = false) as -> by (apply Z.ltb_ge; lia).
-    unfold H at 1. rewrite parse_print. rewrite Hisz. rewrite <- Hbody.
+    rewrite Hpp. rewrite Hisz. rewrite <- Hbody.
     pose proof (rb_firstn_app body [] (k - 8 - nb - List.length H)) as R4. rewrite app_nil_r in R4. rewrite R4. clear R4.
     destruct (Nat.ltb (k - 8 - nb - List.length H) (List.length body)) eqn:K4.
     - apply Nat.ltb_lt in K4.
@@ -145,13 +146,14 @@ Section Framing.
   Qed.
 
   (* np.load on the first k bytes of a well-formed file *)
-  Lemma np_load_prefix : forall major nb m body k,
+  Lemma np_load_prefix_at : forall major nb m body k,
+    parse_hdr (print_hdr m) = Some m ->
     wf_file print_hdr major nb m body ->
     np_load parse_hdr (firstn k (encode print_hdr major nb m body)) =
     if Nat.ltb k (file_len nb m body) then (if Nat.eqb k 0 then Err EEOF else Err EValue) else Ok (m, body).
   Proof.
-    intros major nb m body k Hwf.
-    pose proof (read_array_prefix EValue [1; 2; 3] major nb m body k Hwf
+    intros major nb m body k Hpp Hwf.
+    pose proof (read_array_prefix_at EValue [1; 2; 3] major nb m body k Hpp Hwf
                  (versions_npy major nb (proj1 Hwf))) as RA.
     unfold np_load.
     destruct k as [|k].
@@ -173,43 +175,89 @@ Section Framing.
   Qed.
 
   (* ---- the statements used by Props/C08.v ---- *)
-  Theorem decode_encode : forall major nb m body,
+  Theorem decode_encode_at : forall major nb m body,
+    parse_hdr (print_hdr m) = Some m ->
     wf_file print_hdr major nb m body ->
     np_load parse_hdr (encode print_hdr major nb m body) = Ok (m, body).
   Proof.
-    intros major nb m body Hwf.
-    pose proof (np_load_prefix major nb m body (file_len nb m body) Hwf) as H.
+    intros major nb m body Hpp Hwf.
+    pose proof (np_load_prefix_at major nb m body (file_len nb m body) Hpp Hwf) as H.
     rewrite firstn_all2 in H by (rewrite encode_length; lia).
     rewrite Nat.ltb_irrefl in H. exact H.
   Qed.
+
+  Theorem truncation_never_data_at : forall major nb m body k,
+    parse_hdr (print_hdr m) = Some m ->
+    wf_file print_hdr major nb m body ->
+    (k < List.length (encode print_hdr major nb m body))%nat ->
+    np_load parse_hdr (firstn k (encode print_hdr major nb m body)) = Err (if Nat.eqb k 0 then EEOF else EValue).
+  Proof.
+    intros major nb m body k Hpp Hwf Hk. rewrite encode_length in Hk.
+    rewrite (np_load_prefix_at major nb m body k Hpp Hwf).
+    apply Nat.ltb_lt in Hk. rewrite Hk. destruct (Nat.eqb k 0); reflexivity.
+  Qed.
+
+  Theorem s3_decode_encode_at : forall major nb m body,
+    parse_hdr (print_hdr m) = Some m ->
+    wf_file print_hdr major nb m body -> existsb (Z.eqb major) [1; 2] = true ->
+    s3_read_array parse_hdr (encode print_hdr major nb m body) = Ok (m, body).
+  Proof.
+    intros major nb m body Hpp Hwf Hv. unfold s3_read_array.
+    pose proof (read_array_prefix_at EIncomplete [1; 2] major nb m body (file_len nb m body) Hpp Hwf Hv) as H.
+    rewrite firstn_all2 in H by (rewrite encode_length; lia).
+    rewrite Nat.ltb_irrefl in H. exact H.
+  Qed.
+
+  Theorem s3_truncation_never_data_at : forall major nb m body k,
+    parse_hdr (print_hdr m) = Some m ->
+    wf_file print_hdr major nb m body -> existsb (Z.eqb major) [1; 2] = true ->
+    (k < List.length (encode print_hdr major nb m body))%nat ->
+    s3_read_array parse_hdr (firstn k (encode print_hdr major nb m body)) = Err EIncomplete.
+  Proof.
+    intros major nb m body k Hpp Hwf Hv Hk. rewrite encode_length in Hk. unfold s3_read_array.
+    rewrite (read_array_prefix_at EIncomplete [1; 2] major nb m body k Hpp Hwf Hv).
+    apply Nat.ltb_lt in Hk. now rewrite Hk.
+  Qed.
+End FramingAt.
+
+(* the same for a parser that reads back EVERY header the printer writes (the form used by Props/C08.v) *)
+Section Framing.
+  Variable parse_hdr : bytes -> option hdr.
+  Variable print_hdr : hdr -> bytes.
+  Hypothesis parse_print : forall m, parse_hdr (print_hdr m) = Some m.
+
+  Lemma read_array_prefix : forall short versions major nb m body k,
+    wf_file print_hdr major nb m body ->
+    existsb (Z.eqb major) versions = true ->
+    read_array parse_hdr short versions (firstn k (encode print_hdr major nb m body)) =
+    if Nat.ltb k (file_len print_hdr nb m body) then Err short else Ok (m, body).
+  Proof. intros. apply read_array_prefix_at; auto. Qed.
+
+  Lemma np_load_prefix : forall major nb m body k,
+    wf_file print_hdr major nb m body ->
+    np_load parse_hdr (firstn k (encode print_hdr major nb m body)) =
+    if Nat.ltb k (file_len print_hdr nb m body) then (if Nat.eqb k 0 then Err EEOF else Err EValue) else Ok (m, body).
+  Proof. intros. apply np_load_prefix_at; auto. Qed.
+
+  Theorem decode_encode : forall major nb m body,
+    wf_file print_hdr major nb m body ->
+    np_load parse_hdr (encode print_hdr major nb m body) = Ok (m, body).
+  Proof. intros. apply decode_encode_at; auto. Qed.
 
   Theorem truncation_never_data : forall major nb m body k,
     wf_file print_hdr major nb m body ->
     (k < List.length (encode print_hdr major nb m body))%nat ->
     np_load parse_hdr (firstn k (encode print_hdr major nb m body)) = Err (if Nat.eqb k 0 then EEOF else EValue).
-  Proof.
-    intros major nb m body k Hwf Hk. rewrite encode_length in Hk.
-    rewrite (np_load_prefix major nb m body k Hwf).
-    apply Nat.ltb_lt in Hk. rewrite Hk. destruct (Nat.eqb k 0); reflexivity.
-  Qed.
+  Proof. intros. apply truncation_never_data_at; auto. Qed.
 
   Theorem s3_decode_encode : forall major nb m body,
     wf_file print_hdr major nb m body -> existsb (Z.eqb major) [1; 2] = true ->
     s3_read_array parse_hdr (encode print_hdr major nb m body) = Ok (m, body).
-  Proof.
-    intros major nb m body Hwf Hv. unfold s3_read_array.
-    pose proof (read_array_prefix EIncomplete [1; 2] major nb m body (file_len nb m body) Hwf Hv) as H.
-    rewrite firstn_all2 in H by (rewrite encode_length; lia).
-    rewrite Nat.ltb_irrefl in H. exact H.
-  Qed.
+  Proof. intros. apply s3_decode_encode_at; auto. Qed.
 
   Theorem s3_truncation_never_data : forall major nb m body k,
     wf_file print_hdr major nb m body -> existsb (Z.eqb major) [1; 2] = true ->
     (k < List.length (encode print_hdr major nb m body))%nat ->
     s3_read_array parse_hdr (firstn k (encode print_hdr major nb m body)) = Err EIncomplete.
-  Proof.
-    intros major nb m body k Hwf Hv Hk. rewrite encode_length in Hk. unfold s3_read_array.
-    rewrite (read_array_prefix EIncomplete [1; 2] major nb m body k Hwf Hv).
-    apply Nat.ltb_lt in Hk. now rewrite Hk.
-  Qed.
+  Proof. intros. apply s3_truncation_never_data_at; auto. Qed.
 End Framing.
